@@ -658,7 +658,7 @@ func transportScenario(r *rec, rng *rand.Rand, idx int) {
 	if mfdrop {
 		steps = 0
 		// finish the warm-up request, then start the upload proper
-		for i := 0; i < 50 && len(ids) == 0; i++ {
+		for by := time.Now().Add(15 * time.Second); len(ids) == 0 && time.Now().Before(by); {
 			if err := barrier(); err != nil {
 				r.notes = append(r.notes, fmt.Sprintf("tsend-%d: %v", idx, err))
 				return
@@ -679,7 +679,7 @@ func transportScenario(r *rec, rng *rand.Rand, idx int) {
 		}
 		nreq = 2
 		launch(200000, rng.Intn(2) == 0)
-		for i := 0; i < 50 && len(ids) < 2; i++ { // wait for the upload to start
+		for by := time.Now().Add(15 * time.Second); len(ids) < 2 && time.Now().Before(by); { // wait for the upload to start
 			if err := barrier(); err != nil {
 				r.notes = append(r.notes, fmt.Sprintf("tsend-%d: %v", idx, err))
 				return
@@ -839,11 +839,12 @@ func transportRecvScenario(r *rec, rng *rand.Rand, idx int) {
 		}
 	}
 	// wait for the request
-	for i := 0; i < 100 && hc.Resp[1] == nil; i++ {
+	for reqBy := time.Now().Add(15 * time.Second); hc.Resp[1] == nil && time.Now().Before(reqBy); {
 		if err := barrier(); err != nil {
 			r.notes = append(r.notes, fmt.Sprintf("trecv-%d: %v", idx, err))
 			return
 		}
+		time.Sleep(2 * time.Millisecond)
 	}
 	if hc.Resp[1] == nil {
 		r.notes = append(r.notes, fmt.Sprintf("trecv-%d: no request arrived", idx))
